@@ -58,6 +58,22 @@ def check(prog, run):
     strf = cls.lookup("__str__")[0]
     if not isinstance(init, FuncVal) or not isinstance(strf, FuncVal):
         raise AnalysisError("anchor-missing", "SCSICheckCondition.__init__/__str__")
+    # T10's texts are plain ASCII; a character outside it (a typographic dash pasted from the PDF) makes the text differ from
+    # T10's and makes print() raise UnicodeEncodeError on a stream that cannot encode it
+    smod = cls.module
+    ntext = 0
+    for dname, dval in sorted(smod.env.items()):
+        if isinstance(dval, dict):
+            for k, v in dval.items():
+                if isinstance(v, str):
+                    ntext += 1
+                    badch = [ch for ch in v if not (32 <= ord(ch) < 127)]
+                    if badch:
+                        run.violation("text-is-plain-ascii", "%s[%s]" % (dname, ("%#06x" % k) if isinstance(k, int) else repr(k)),
+                                      "the text %r contains %s: not T10's text, and printing it fails on an ASCII / Latin-1 stream"
+                                      % (v, ", ".join("U+%04X" % ord(ch) for ch in badch[:3])), file, None, cls.qualname)
+    run.ok("text-is-plain-ascii", "%d texts in %s" % (ntext, smod.name), {"texts": ntext})
+    run.require(ntext > 500, "anchor-missing", "sense text dictionaries (%d texts)" % ntext)
     npaths = 0
     lookups = {}
     # a transport that has no sense data to pass on (an empty buffer from the driver, None from a binding without sense
